@@ -40,6 +40,14 @@ def make_base(tmp):
 
 def apply_variant(base, tmp, v, n):
     root = os.path.join(tmp, "v%d" % n)
+    if v.get("patch"):
+        # a unified diff (a seeded change / a behaviour-preserving change kept under seeded/ or benign/): real copy, patch -p1
+        shutil.copytree(base, root)
+        pr = subprocess.run(["patch", "-p1", "-s", "-f", "--no-backup-if-mismatch", "-i", v["patch"]], cwd=root, capture_output=True, text=True)
+        if pr.returncode != 0:
+            shutil.rmtree(root, ignore_errors=True)
+            return None, "patch does not apply: %s" % (pr.stdout + pr.stderr)[-200:]
+        return root, None
     # hard-link copy is enough: we rewrite (not modify in place) the edited file
     shutil.copytree(base, root, copy_function=os.link)
     edits = v.get("edits") or [dict(file=v["file"], old=v["old"], new=v["new"], count=v.get("count", 1),
@@ -80,6 +88,14 @@ def run_one(args):
                 return (pid, v, "WRONG-RULE", "expected rule %s; got:\n%s" % (want, _viol(out)))
             return (pid, v, "OK", _viol(out)[:200])
         return (pid, v, "MISSED", "exit %d\n%s" % (p.returncode, out[-600:]))
+    elif kind == "keep-or-refuse":
+        # a behaviour-preserving change written by someone who has not seen the checks: silence (exit 0) is right, 'cannot decide'
+        # (exit 2) is tolerated and counted, a VIOLATION is a false alarm
+        if p.returncode == 0:
+            return (pid, v, "OK", "")
+        if p.returncode == 2 and "ANALYSIS-ERROR" in out:
+            return (pid, v, "OK", "undecided")
+        return (pid, v, "FALSE-ALARM", out[-800:])
     elif kind == "refuse":
         # a breaking change for which the analysis has no positive evidence of a violation: it must refuse to pass (exit 2,
         # 'cannot decide'), never exit 0
@@ -104,6 +120,7 @@ def main():
     ap.add_argument("--only", default=None)
     ap.add_argument("-v", action="store_true")
     ap.add_argument("--stale-ok", action="store_true", help="variants whose edit no longer applies to the tree are skipped, not failed")
+    ap.add_argument("--no-saved", action="store_true", help="only the hand-written variants, not the saved seeded / benign change sets")
     a = ap.parse_args()
     mods = sorted(f[:-3] for f in os.listdir(HERE) if re.match(r"v_c\d+\.py$", f))
     jobs = []
@@ -112,7 +129,22 @@ def main():
         if a.pids and pid not in [x.upper() for x in a.pids]:
             continue
         mod = importlib.import_module("selftest." + mn)
-        for v in mod.VARIANTS:
+        extra = []
+        if not a.no_saved:
+            # the independently seeded breaking changes of this property (seeded/<tag>/patch.diff) and the behaviour-preserving
+            # change sets written for it (benign/<tag>/benign_N.diff) are part of the suite
+            sd = os.path.join(VERIF, "seeded")
+            for tag in sorted(os.listdir(sd)) if os.path.isdir(sd) else []:
+                mp = os.path.join(sd, tag, "meta.json")
+                if os.path.exists(mp) and json.load(open(mp)).get("property") == pid:
+                    extra.append(dict(name="seed:%s" % tag, kind="break", patch=os.path.join(sd, tag, "patch.diff")))
+            bd = os.path.join(VERIF, "benign")
+            for tag in sorted(os.listdir(bd)) if os.path.isdir(bd) else []:
+                if tag[:3] == pid and os.path.isdir(os.path.join(bd, tag)):
+                    for f_ in sorted(os.listdir(os.path.join(bd, tag))):
+                        if re.match(r"benign_\d+\.diff$", f_):
+                            extra.append(dict(name="benign:%s/%s" % (tag, f_[:-5]), kind="keep-or-refuse", patch=os.path.join(bd, tag, f_)))
+        for v in list(mod.VARIANTS) + extra:
             if a.only and a.only not in v["name"]:
                 continue
             jobs.append((pid, v))
@@ -140,8 +172,10 @@ def main():
         if status != "OK":
             bad += 1
     nb = sum(1 for r in res if r[1]["kind"] in ("break", "refuse"))
-    print("selftest: %d variants (%d breaking, %d preserving), %d not as expected%s" % (
-        len(res), nb, len(res) - nb, bad, (", %d skipped (edit does not apply to this tree)" % nstale) if nstale else ""))
+    nund = sum(1 for r in res if r[2] == "OK" and r[3] == "undecided")
+    print("selftest: %d variants (%d breaking, %d preserving%s), %d not as expected%s" % (
+        len(res), nb, len(res) - nb, (", %d of them left undecided" % nund) if nund else "", bad,
+        (", %d skipped (edit does not apply to this tree)" % nstale) if nstale else ""))
     return 2 if bad else 0
 
 
